@@ -34,15 +34,14 @@ def custom_run(pid, tier, seed, replay=None):
 ENABLED = True
 LEVEL = "proof"
 LEVEL_TEXT = ("Theorems in coq/theories/Properties/C26.v over ALL interface descriptions, node trees, calls and handler behaviours: "
-              "exactly one reply unless NO_REPLY_EXPECTED (full strength); outside five decidable classes the model of "
+              "exactly one reply unless NO_REPLY_EXPECTED (full strength); outside four decidable classes the model of "
               "dispatch_method_call_try + the generated call/call_mut/argument decoding/reply code meets the specification written "
               "from the property text (handler runs iff path, interface, member and argument types match; result with the declared "
-              "types, handler's error, or UnknownObject / UnknownInterface / UnknownMethod); wrong argument types are always rejected "
-              "without running the handler. Inside each class a concrete call refutes the full statement. The macros are modelled; "
+              "types, handler's error, or UnknownObject / UnknownInterface / UnknownMethod / InvalidArgs); wrong argument types are "
+              "always rejected with InvalidArgs (fix 86474bc3) without running the handler. Inside each class a concrete call refutes the full statement. The macros are modelled; "
               "the model is tied to them by generating Rust sources from the same descriptions, compiling them against /repo and "
               "comparing every observable of every generated call.")
-LEVEL_NOTE = ("partial: the full statement is refuted in five known classes (wrong argument types answered with "
-              "org.freedesktop.zbus.Error instead of InvalidArgs; a method without inputs ignores the body; `us` and `(us)` bodies are "
+LEVEL_NOTE = ("partial: the full statement is refuted in four known classes (a method without inputs ignores the body; `us` and `(us)` bodies are "
               "indistinguishable after parsing; a call without INTERFACE is answered Failed; a single struct return travels as its "
-              "fields). Trusted: Coq kernel, the hand-written model of the generated code, the description->source emitter, harness "
+              "fields); the former class invalid_args_name is fixed by 86474bc3 and its witness now meets the specification. Trusted: Coq kernel, the hand-written model of the generated code, the description->source emitter, harness "
               "hiface. Sequential calls only.")
